@@ -49,6 +49,7 @@ func closureDefers(p *Prog, clo *ssa.Function, pred func(d *ssa.Defer) bool) boo
 func runC17(c *Ctx) {
 	p := c.P
 	const P = "C17"
+	runC17ExportOnce(c, P)
 	c.rule(P, "pair", "acceptLoop: registerConnection==true ⇒ go closure deferring unregisterConnection(conn)+wg.Done on all paths, no Close in between; false ⇒ Close, no serving", 2)
 	c.rule(P, "count", "activeConns/connCount only under connMutex; limit test + increment in one critical section; decrement paired with delete under sync.Once", 12)
 	c.rule(P, "wg", "every goroutine started by Server is counted (wg.Add before, defer wg.Done inside); Stop: cancel → close listeners → closeAllConnections → wait", 5)
